@@ -293,6 +293,9 @@ def build_tu(job):
         e['sig'] = e['text'].split('\n')[0]
         emitted.append((fname, e))
         meta['functions'] += e['audit']
+    for key, val in spec.items():
+        if key[0] == 'globals' and key[1] in [c for c, _ in emitted]:
+            parts.append(val)
     # prototypes first (functions may call each other in any order)
     for cname, e in emitted:
         parts.append(e['sig'] + ';')
